@@ -9,6 +9,7 @@ import (
 	"encoding/json"
 	"fmt"
 	"os"
+	"time"
 )
 
 var replay map[string]json.RawMessage
@@ -262,6 +263,10 @@ func TimerPending(t any) bool { return false }
 // Quiesce lets every other goroutine run until none of them can make progress (timers excluded).
 func Quiesce() {}
 
+// GhostDuration reads a term-valued ghost, e.g. "otter.lastttl": the time-to-live most recently handed to the cache
+// backend model; natively 0.
+func GhostDuration(name string) time.Duration { return 0 }
+
 // Ghost reads an engine-side ghost counter (e.g. "otter.closed"); natively 0.
 func Ghost(name string) int { return 0 }
 
@@ -274,6 +279,11 @@ func MapExtraSize(m any, n int) {}
 // SymbolicMemory switches the executor to fully symbolic byte offsets/lengths for this harness (no
 // concretisation by forking): needed when buffers are unbounded (BytesUF).
 func SymbolicMemory() {}
+
+// IntegerSolver selects cvc5 with bit-vectors solved as integers for this harness (must be its first statement): for
+// harnesses whose queries are chains of 64-bit (in)equalities and additions (clock arithmetic, address ranges). Byte
+// memory keeps its concretising representation, unlike SymbolicMemory.
+func IntegerSolver() {}
 
 // BytesUF returns a buffer of nondeterministic length 0..maxLen whose content is an uninterpreted function
 // of the index (arbitrary bytes, no per-byte variables) — for claims up to 65535 octets.
